@@ -907,6 +907,25 @@ def _bi_callable(it, st, args, node):
     raise Unsupported(f"{it.site(node)}: callable({v!r})")
 
 
+def bi_getattr(it, st, args, kwargs, node):
+    """getattr(obj, "literal"[, default]) on a module (feature test) or an object"""
+    eng = it.eng
+    obj = eng.unbox(st, args[0])
+    name = const_str(args[1].t) if isinstance(args[1], VStr) else None
+    if name is None:
+        raise Unsupported(f"{it.site(node)}: getattr with a computed name")
+    if isinstance(obj, VModule):
+        dotted = obj.name + "." + name
+        if dotted in eng.reg.intrinsics:
+            return VFunc(dotted)
+        if dotted in eng.reg.consts:
+            return eng.reg.consts[dotted]
+        if len(args) > 2:
+            return args[2]
+        raise Unsupported(f"{it.site(node)}: getattr({obj.name}, {name!r}) without default")
+    return it.getattr(st, obj, name, node)
+
+
 def bi_all(it, st, args, kwargs, node):
     """all(...) = not any(not ...)"""
     eng = it.eng
@@ -1107,6 +1126,7 @@ BUILTIN_FUNCS = {
     "range": bi_range,
     "hasattr": bi_hasattr,
     "all": bi_all,
+    "getattr": bi_getattr,
     "callable": lambda it, st, args, kwargs, node: _bi_callable(it, st, args, node),
     "next": bi_next,
     "type": bi_type,
